@@ -384,6 +384,9 @@ func (w *World) noiseInto(f *Node) bool {
 			b[i] = byte(w.ch.Pick("byte", 256))
 		}
 		raw = &interfaces.ConsensusRawMessage{Content: b}
+		if n == 0 && w.ch.Pick("noise-nil", 2) == 1 {
+			raw = &interfaces.ConsensusRawMessage{Content: nil} // no content at all (not even an empty slice)
+		}
 		w.use("input.bytes-random")
 	case 1:
 		if len(w.sent) == 0 {
@@ -488,9 +491,15 @@ func (w *World) cancelFocus(f *Node) {
 	// A consumer call that ignores its context (a slow log sink, a proposal that arrives late) keeps the goroutine
 	// that made it alive: WaitUntilShutdown must not report completion while a goroutine the library started is
 	// still inside such a call. (The worker under select control learns about the cancellation through the hook.)
+	// what the worker still has in its hands when cancellation strikes (a queued election trigger, queued messages, a
+	// sync) competes with the cancellation in its select: for a few rounds the tape decides which it takes, as before
+	// the cancellation; after that it observes the cancellation as soon as it looks
+	if f.ctrl != nil && f.ctrl.policy != nil {
+		f.freeChoices = w.ch.Pick("shutdown-free-choices", 4)
+	}
 	for i := 0; i < 1000; i++ {
 		simWait()
-		if f.ctrl == nil || !f.ctrl.shutdownStep() {
+		if f.ctrl == nil || !w.shutdownWorkerStep(f) {
 			break
 		}
 	}
@@ -818,6 +827,13 @@ func (w *World) preemptStep(f *Node) bool {
 			return false
 		}
 		w.action("arm-yield-main")
+		if w.ch.Pick("main-at-handoff", 3) == 2 {
+			// in the middle of a hand-off to the worker: the first select the main loop reaches outside its own loop
+			// select (the "free a slot, then send" sequences)
+			w.armYield(f, "main", 1+w.ch.Pick("handoff-nth", 3), ":select")
+			w.ys.arm.exclude = ":MainLoop.run:"
+			return true
+		}
 		w.armYield(f, "main", 1+w.ch.Pick("yield-in", 4), "")
 		return true
 	case 0, 1:
@@ -858,4 +874,19 @@ func (w *World) apiSample(f *Node) bool {
 		w.ys.arm = nil // the call had fewer synchronisation points than asked for
 	}
 	return true
+}
+
+// shutdownWorkerStep: one hand-shake with a cancelled node's worker: while free choices remain the tape decides what it
+// takes from its hands (as before the cancellation), afterwards it observes the cancellation as soon as it looks.
+func (w *World) shutdownWorkerStep(n *Node) bool {
+	c := n.ctrl
+	if c == nil {
+		return false
+	}
+	if n.freeChoices > 0 && c.state == wsChoosing && !c.hold && c.policy != nil {
+		n.freeChoices--
+		w.probe("worker-choice-after-cancel")
+		return c.autoStep()
+	}
+	return c.shutdownStep()
 }
